@@ -176,7 +176,7 @@ def run(tier, only=None):
     sd = seed()
     prog, inv, res, dropped = messages.build('world', corpus)
     targets = messages.world_targets(corpus)
-    idxs = [i for i, (v, c, p) in enumerate(targets) if not only or only in p]
+    idxs = [i for i, (v, c, p) in enumerate(targets) if not only or (re.search(only, p) if '|' in only else only in p)]
     nproc = min(NCPU, max(1, len(idxs)))
     chunks = [c for c in (idxs[j::nproc * 4] for j in range(nproc * 4)) if c]
     with mp.Pool(nproc) as pool:
@@ -195,7 +195,7 @@ def run(tier, only=None):
             for f in r['findings']:
                 key = '%s/%s' % (r['path'], f['kind'])
                 ck.violation(key, f['what'], dict(f, message=r['path'], guard=r.get('guard'), true=r.get('true')), confirmed=True)
-    ir_n = ir_sizes(ck, only)
+    ir_n = ir_sizes(ck, only) if not os.environ.get('VERIF_C09_NO_IR') else 0
     ck.assume('the accepted size set is extracted from the compiled guard of read_inner; the sizes objects of the regenerated IR (all views, structs and messages) are compared with the same true extrema (minimum_size <= min, maximum_size >= max up to the 65535 cap)')
     ck.assume('lengths: vf/sizes.py; CString <= 255 characters, String <= 255, arrays with 8/16-bit counts over their full range, arrays with 32-bit counts and endless arrays: only counts up to 3 are required to be accepted (the definition states no limit; larger counts fall under the implementation\'s allocation limits), SizedCString text <= 8000 bytes (implementation limit), all capped by the largest body a frame can carry')
     ck.assume('login messages carry no size guard and are outside this check')
